@@ -30,9 +30,16 @@ ASSUMPTIONS = ["dates within years 0000..9999 (time.Parse layout 2006-01-02)",
 TECHNIQUE = ("Coq: vm_compute refutation of the pinned printer; closed round-trip lemmas for the leaves and per directive at the "
              "model level; journal-level statements as *_partial.  Correspondence: the binary on its own print output, the model's "
              "parser+ToModel re-reading both the model's and the binary's output (normal_form_b, same_report_b)")
-LEVEL_TEXT = ("see Properties/C09.v: C09_multi_assertion_refuted (pinned journal.Print emits a rejected journal), leaf and "
-              "directive-level round trips closed; C09_accepted / C09_idem / C09_same_reports stated in full in comments, "
-              "proved parts as *_partial.")
+LEVEL_TEXT = ("Properties/C09.v, 14 theorems closed under the global context.  Refuted for the pinned printer: "
+              "C09_multi_assertion_refuted (an accepted journal whose printed form the model's parser rejects; vm_compute).  For "
+              "the repaired printer: layer 0 C09_multi_assertion_fixed, C09_example (whole loop inside Coq); layer 1 "
+              "C09_txn_denoted / C09_directive_denoted (every model directive, accrual expansions included, is reproduced exactly "
+              "from what the printer writes for it), C09_date/account/decimal_roundtrip (leaves through ToModel); model-level "
+              "journal statements C09_accepted_partial, C09_idem_partial, C09_same_reports_partial, C09_denote_idem (the denoted "
+              "directive list loads to the same builder: same verdict, same print bytes, same report bytes); C09_printers_agree "
+              "(the repair changes the output only where a multi-balance assertion is followed by another assertion).  The full "
+              "statements C09_accepted / C09_idem / C09_same_reports over the TEXT are in the header comment; not proved: parser "
+              "context lemmas on printer output, decimal text normal form, invariance under print's regrouping and sorting.")
 LEVEL_NOTE = ("On the pinned tree the property is violated (finding C09-multi-assertion, DESIGN F2); the check reports it with "
               "replay.  With findings/C09-multi-assertion.patch applied the check passes.")
 
